@@ -171,6 +171,19 @@ PROPS = {
         "bounds": {"quick": "all 8 kinds; all u32 tags; record lengths 0..4 with arbitrary contents"},
         "outside": ["round trips of full values of every record kind and of Request/Response messages through serde-derive + rmp (not claimed)", "payloads with payment proofs", "decoding of arbitrary longer byte strings"],
     },
+    "C13": {
+        "parts": [
+            {"engine": "D", "crate": "d_node", "harnesses": [
+                {"name": "c13_expiry", "covers": ["expired", "valid"], "quick": {"max_paths": 1000, "timeout": 600}},
+                {"name": "c13_binding", "covers": ["altered"], "quick": {"max_paths": 1000, "timeout": 600}},
+                {"name": "c13_proof", "covers": ["verifies", "fails"], "quick": {"max_paths": 1000, "timeout": 600}},
+                {"name": "c13_historical", "covers": ["inconsistent", "consistent"], "quick": {"max_paths": 1000, "timeout": 600}},
+            ]},
+        ],
+        "assumptions": NODE_ASSUMPTIONS[:3] + ["real rmp_serde encodes the (concrete) quoting metrics inside bytes_for_signing; single-field alterations are one representative altered value per field, except the timestamp, which is any different symbolic instant"],
+        "bounds": {"quick": "one quote; timestamp and clock fully symbolic (64-bit seconds); 9 single-field alterations incl. key and claimed identity; proofs of 1..2 quotes with each quote genuine / forged / signed by another node; historical_verify with symbolic timestamps in both argument orders"},
+        "outside": ["ed25519/RSA and protobuf key decoding (ideal scheme)", "sub-second timestamp differences (the code signs whole seconds)", "byte-level injectivity of the signed encoding for all field values (msgpack is trusted to be injective)"],
+    },
     "C16": {
         "parts": [
             {"engine": "K", "crate": "k_evm", "harnesses": [
